@@ -90,6 +90,11 @@ class SimRun:
             except IterationCap as e:
                 self.outcome = "itercap"
                 self.error = e
+            except Exception as e:
+                # an exception escaped the simulated program: the engines decide whether that is a
+                # violation (unexpected error out of legitimate API use) or a harness bug
+                self.outcome = "exc"
+                self.error = e
         finally:
             simset.set_rng(None)
             if self.loop is not None:
